@@ -37,11 +37,13 @@ RULE = (
     "dimensions 1..4 drawn independently for the left and right side (CP, Hermiticity-preserving non-CP, general), real "
     "or complex, small-integer or Gaussian entries from a drawn seed; the representation handed to dual_channel (flat, "
     "nested, single row for r>2, pairs, Choi matrix with the dims argument as matrix / vector / scalar / omitted); "
-    "operators X and Y from drawn seeds.  Unital/TP part: families built unital and TP (mixed unitary), TP only "
+    "operators X and Y from drawn seeds; for the double dual a drawn flag makes the second dual be taken in the other "
+    "kind of representation (Kraus <-> Choi, converted by a numpy reference) of the first dual.  Unital/TP part: families built unital and TP (mixed unitary), TP only "
     "(Stinespring isometry blocks), unital only (their adjoints, or non-CP pairs solved for sum A B^dagger = I), or "
     "neither (generic), residuals measured by the reference predicates.  Complementary part: square trace-preserving "
     "Kraus families from isometries C^d -> C^(d r), d in 1..4, r in 1..5 (plus integer permutation and "
-    "measure-and-prepare families), states rho pure or mixed; rejected families are non-TP by a margin >= 1e-3 or "
+    "measure-and-prepare families), states rho pure or mixed; rejected families are non-TP by a margin >= 1e-3 "
+    "(one operator scaled or dropped, generic, skewed with the trace of the completeness sum kept, adjoint family) or "
     "non-square.  A case is non-trivial when (complex entries and input dim != output dim) or the Choi form is used, "
     "for the complementary part when r >= 2 and d >= 2.  distinct = distinct SHA-1 of the canonical case JSON among "
     "non-trivial cases."
@@ -183,19 +185,59 @@ def check_adjoint(case):
 # ------------------------------------------------------------------------------------------
 # 2. dual of the dual acts as Phi
 # ------------------------------------------------------------------------------------------
+@st.composite
+def _double_case(draw):
+    case = draw(_dual_case())
+    # "cross": the second dual is taken in the other kind of representation (Kraus-type <-> Choi) of the first dual,
+    # obtained by a numpy reference conversion, so that an error made twice in one branch cannot cancel
+    case["cross"] = _choi_sides_ok(case["map"]) and draw(st.booleans())
+    return case
+
+
+def _svd_pairs(j, din, dout):
+    """numpy reference: pairs (A_s, B_s) with J[(i,a),(k,b)] = sum_s A_s[a,i] conj(B_s[b,k])"""
+    u, sv, vh = np.linalg.svd(np.asarray(j, dtype=complex), full_matrices=False)
+    out = []
+    for s in range(len(sv)):
+        a = np.sqrt(sv[s]) * u[:, s].reshape(din[0], dout[0]).T
+        b = np.sqrt(sv[s]) * vh[s, :].conj().reshape(din[1], dout[1]).T
+        out.append([a, b])
+    return out
+
+
 def check_double_dual(case):
+    from toqito.channel_ops import dual_channel
+
     m = case["map"]
     form = case["form"]
     pairs = build_pairs(m)
     i1, i2, o1, o2 = m["i1"], m["i2"], m["o1"], m["o2"]
     x = build_x(case["xseed"], i1, i2, "prng", True)
     rep = _rep_of(m, pairs, form)
-    d1 = _call_dual(rep, m, form, case["dimsform"])
-    d2 = _call_dual(d1, m, form, case["dimsform"], swapped=True)
-    what = f"dual_channel(dual_channel(<{form}>))"
     exp = apply_ref(pairs, x, (o1, o2))
-    got = _apply_rep(d2, form, x, (i1, i2), (o1, o2), what)
-    close(got, exp, 1e-9 * map_scale(pairs) * max(1.0, fro(x)), f"{what} applied to X vs Phi(X)", "dual:double:" + form)
+    tol = 1e-9 * map_scale(pairs) * max(1.0, fro(x))
+    d1 = _call_dual(rep, m, form, case["dimsform"])
+    if not case.get("cross"):
+        d2 = _call_dual(d1, m, form, case["dimsform"], swapped=True)
+        what = f"dual_channel(dual_channel(<{form}>))"
+        got = _apply_rep(d2, form, x, (i1, i2), (o1, o2), what)
+        close(got, exp, tol, f"{what} applied to X vs Phi(X)", "dual:double:" + form)
+        return
+    if form == "choi":
+        what = "dual_channel(<pairs of dual_channel(<choi>)>)"
+        d1 = np.asarray(d1)
+        req(d1.shape == (o1 * i1, o2 * i2), f"dual_channel(<choi>): shape {d1.shape}", "dual:shape")
+        d2 = dual_channel(_svd_pairs(d1, (o1, o2), (i1, i2)))
+        got = _apply_rep(d2, "pairs", x, (i1, i2), (o1, o2), what)
+        tol = tol * 100  # goes through an SVD of the first dual
+    else:
+        what = f"dual_channel(<choi of dual_channel(<{form}>)>)"
+        fp, _ = as_pairs(_flatten_form(d1, form, what), what)
+        for a, b in fp:
+            req(a.shape == (i1, o1) and b.shape == (i2, o2), f"dual_channel(<{form}>): operator shapes {a.shape}, {b.shape}", "dual:shape")
+        d2 = dual_channel(choi_ref(fp, o1, o2), dims=[[o1, i1], [o2, i2]])
+        got = _apply_rep(d2, "choi", x, (i1, i2), (o1, o2), what)
+    close(got, exp, tol, f"{what} applied to X vs Phi(X)", "dual:double-cross:" + form)
 
 
 # ------------------------------------------------------------------------------------------
@@ -387,7 +429,7 @@ def nt_comp(case):
 # ------------------------------------------------------------------------------------------
 @st.composite
 def _reject_case(draw):
-    mode = draw(st.sampled_from(["nonsquare_tp", "scaled", "dropped", "generic", "one_nonsquare"]))
+    mode = draw(st.sampled_from(["nonsquare_tp", "scaled", "dropped", "generic", "one_nonsquare", "skewed_same_trace", "adjoint_family"]))
     d = draw(st.integers(1, 4))
     r = draw(st.integers(2 if mode in ("dropped", "one_nonsquare") else 1, 5))
     d_out = d
@@ -425,6 +467,13 @@ def check_reject(case):
             ks[w] = ks[w] * (1 + case["delta"])
         elif mode == "dropped":
             ks = ks[:w] + ks[w + 1 :]
+        elif mode == "skewed_same_trace":
+            # K_k S with S = diag(sqrt(w)), sum w = d: sum K^dagger K = S^2 has the trace of the identity but is not the identity
+            wts = d * gen.rand_probs(case["seed"] ^ 0x5A5A, d, floor=0.02)
+            ks = [k @ np.diag(np.sqrt(wts)) for k in ks]
+        elif mode == "adjoint_family":
+            # unital (sum K K^dagger = I) but in general not trace preserving
+            ks = [k.conj().T for k in ks]
         else:
             ks[w] = np.vstack([ks[w], np.zeros((1, d))])
     square = all(k.shape[0] == k.shape[1] == d for k in ks)
@@ -444,7 +493,7 @@ def check_reject(case):
 
 SUBCHECKS = [
     SubCheck("adjoint_identity", check_adjoint, _dual_case, nt_dual, quick=36000, thorough=576000),
-    SubCheck("dual_of_dual", check_double_dual, _dual_case, nt_dual, quick=20000, thorough=320000),
+    SubCheck("dual_of_dual", check_double_dual, _double_case, nt_dual, quick=20000, thorough=320000),
     SubCheck("unital_iff_dual_tp", check_unital_tp, _unital_case, nt_unital, quick=24000, thorough=384000),
     SubCheck("complementary", check_complementary, _comp_case, nt_comp, quick=24000, thorough=384000),
     SubCheck("complementary_rejects", check_reject, _reject_case, lambda c: "reject:" + c["mode"] if c["d"] >= 2 else None, quick=8000, thorough=128000),
